@@ -22,6 +22,8 @@ THEOREMS = [
     ("EG.props.C03", "C03_refuted_adaptor_body_len"),
     ("EG.props.C03", "C03_refuted_decoded_path"),
     ("EG.props.C03", "C03_refuted_stream_compress_panics"),
+    ("EG.props.C03", "C03_refuted_compress_replaces_label"),
+    ("EG.props.C03", "C03_compress_appends_label"),
 ]
 _NET = "harness/httpserver/zz_verif_c07_net_test.go"
 HARNESSES = [
@@ -73,7 +75,8 @@ MANIFEST = dict(
     technique="Coq proof (stage invariants over the response pipeline, induction over header maps) + model/implementation correspondence by vm_compute over real loopback traffic",
 )
 
-FLAG_FIELDS = ["q_compress_keeps_length", "q_adaptor_body_keeps_length", "q_proxy_decoded_path", "q_stream_compress_panics"]
+FLAG_FIELDS = ["q_compress_keeps_length", "q_adaptor_body_keeps_length", "q_proxy_decoded_path", "q_stream_compress_panics",
+               "q_compress_replaces_label"]
 
 
 def _pregen_body(repo, coqdir):
@@ -165,6 +168,12 @@ def _target(t, S=S):
     return Opt(T(S(t["path"]), S(t["query"]))) if t["ok"] else "None"
 
 
+def _peeled(p, S=S):
+    if not p["ok"]:
+        return "None"
+    return Opt(T(L([S(t) for t in (p.get("rest") or [])]), S(_b(p.get("data")))))
+
+
 def _enc(kind, n):
     if kind == "cl":
         return C("EncCL", Z(n))
@@ -198,9 +207,11 @@ def _encode_e2e(c, pool=None):
     obs = Rec(
         x_got=B(o["got"]), x_status=Z(o["status"]), x_headers=_hmap(o["headers"], S),
         x_cl=_cl(o["headers"], o["kind"], o["declared"]), x_body=S(_b(o["body"])), x_frame=B(o["frameOK"]),
+        x_rest=L([S(t) for t in (o.get("rest") or [])]),
         x_dec=Opt(S(_b(o["dec"]))) if o["decOK"] else "None",
         x_bcount=Z(o["bcount"]), x_bmethod=S(o["bmethod"]), x_btarget=S(o["btarget"]), x_bparsed=_target(o["bparsed"], S),
         x_bhost=S(o["bhost"]), x_bheaders=_hmap(o["bheaders"], S), x_bbody=S(_b(o["bbody"])),
+        x_brest=L([S(t) for t in (o.get("brest") or [])]),
         x_bdec=Opt(S(_b(o["bdec"]))) if o["bdecOK"] else "None")
     wrap = pool.wrap if own else (lambda t: t)
     return wrap(Rec(
@@ -210,6 +221,8 @@ def _encode_e2e(c, pool=None):
         e_resp_enc=_enc(i["respEnc"], len(_b(i["respBody"]))), e_resp_body=S(_b(i["respBody"])),
         e_gzip=L([T(S(_b(a)), S(_b(b))) for a, b in (orc["gzip"] or [])]),
         e_gunzip=L([T(S(_b(g["in"])), Opt(S(_b(g["out"]))) if g["ok"] else "None") for g in (orc["gunzip"] or [])]),
+        e_inflate=L([T(S(_b(g["in"])), Opt(S(_b(g["out"])))) for g in (orc.get("inflate") or [])]),
+        e_req_peel=_peeled(orc["reqPeel"], S), e_resp_peel=_peeled(orc["respPeel"], S),
         e_client=_target(orc["client"], S), e_esc=S(orc["pathEsc"]),
         e_out_dec=Opt(S(orc["outDec"])) if orc["outDecOK"] else "None",
         e_out_esc=Opt(S(orc["outEsc"])) if orc["outEscOK"] else "None",
